@@ -7,7 +7,6 @@ import (
 	"context"
 	"encoding/json"
 	"fmt"
-	"maps"
 	"strings"
 	"time"
 
@@ -402,13 +401,16 @@ func (rsc *service) createGPUReservationPod(ctx context.Context, nodeName, gpuGr
 	}
 
 	if rsc.podResources != nil {
-		if rsc.podResources.Limits != nil {
-			delete(rsc.podResources.Limits, constants.NvidiaGpuResource)
-			maps.Copy(resources.Limits, rsc.podResources.Limits)
+		// the configured maps are shared by concurrent reserves of different groups: read them only
+		for name, quantity := range rsc.podResources.Limits {
+			if name != constants.NvidiaGpuResource {
+				resources.Limits[name] = quantity
+			}
 		}
-		if rsc.podResources.Requests != nil {
-			delete(rsc.podResources.Requests, constants.NvidiaGpuResource)
-			maps.Copy(resources.Requests, rsc.podResources.Requests)
+		for name, quantity := range rsc.podResources.Requests {
+			if name != constants.NvidiaGpuResource {
+				resources.Requests[name] = quantity
+			}
 		}
 	}
 
